@@ -59,6 +59,15 @@ def random_array(rng, legs, dtype=float, qtotal=None, drop_blocks=0.3, zero_bloc
         for d in a._data:
             if rng.random() < zero_blocks:
                 d[...] = 0
+    # storage order of the blocks: either sorted with a truthful claim, or shuffled with the claim cleared
+    if len(a._data) > 1:
+        if rng.random() < 0.5:
+            a.isort_qdata()
+        else:
+            perm = rng.permutation(len(a._data))
+            a._data = [a._data[i] for i in perm]
+            a._qdata = np.ascontiguousarray(a._qdata[perm])
+            a._qdata_sorted = False
     a.test_sanity()
     return a
 
